@@ -35,6 +35,10 @@ pub struct ExplorerScenario {
     pub requests: Vec<Req>,
     /// extra browser threads that poll `status`
     pub browsers: usize,
+    /// serve the model with the real HTTP server on the loopback interface and speak HTTP to it
+    /// (outside the simulation: real sockets and threads; only replies that arrived are judged)
+    #[serde(default)]
+    pub http: bool,
     pub sched: SchedSpec,
 }
 
@@ -91,7 +95,7 @@ pub fn gen_explorer(seed: u64) -> ExplorerScenario {
         .collect();
     let mut sched = super::gen::gen_sched(&mut rng, 300_000);
     sched.block_size = *rng.pick(&[1usize, 1, 2, 3, 0]);
-    ExplorerScenario { graph, threads: 1 + rng.usize_below(3), walk_init, walk_actions, requests, browsers: rng.usize_below(3), sched }
+    ExplorerScenario { graph, threads: 1 + rng.usize_below(3), walk_init, walk_actions, requests, browsers: rng.usize_below(3), http: seed % 500 == 0, sched }
 }
 
 fn fp(s: u16) -> u64 {
@@ -124,6 +128,75 @@ fn denotes(g: &Graph, fps: &[u64]) -> Option<u16> {
     Some(cur)
 }
 
+
+/// `status`: one entry per property, in order, each discovery path decoding to a genuine witness.
+fn judge_status_props(g: &Graph, rf: &Reference, all_fps: &BTreeMap<u64, u16>, st: &serde_json::Value, local_v: &mut Vec<Violation>, cc: &mut Counters) {
+    let props = st["properties"].as_array().cloned().unwrap_or_default();
+    if props.len() != g.props.len() {
+        local_v.push(Violation::new("C19", "status", format!("status lists {} properties, the model has {}", props.len(), g.props.len())));
+    }
+    for (i, p) in props.iter().enumerate() {
+        let name = p[1].as_str().unwrap_or("");
+        if name != NAMES[i] {
+            local_v.push(Violation::new("C19", "status", format!("property {} is listed as {:?}", NAMES[i], name)));
+        }
+        if let Some(enc) = p[2].as_str() {
+            // decode the fingerprint path and validate the witness
+            let states: Option<Vec<u16>> = enc.split('/').map(|f| f.parse::<u64>().ok().and_then(|f| all_fps.get(&f).cloned())).collect();
+            let ok = match &states {
+                None => false,
+                Some(states) => {
+                    let fps: Vec<u64> = states.iter().map(|s| fp(*s)).collect();
+                    let exec = denotes(g, &fps).is_some() && states.iter().all(|s| g.in_boundary(*s));
+                    let last = *states.last().unwrap();
+                    let wit = match g.props[i].kind {
+                        Kind::Always => !g.bit(i, last),
+                        Kind::Sometimes => g.bit(i, last),
+                        Kind::Eventually => states.iter().all(|s| !g.bit(i, *s)) && rf.is_terminal(last),
+                    };
+                    exec && wit
+                }
+            };
+            cc.inc("status_discovery_paths_decoded");
+            if !ok {
+                local_v.push(Violation::new("C19", "status", format!("status path {:?} for {} {:?} does not decode to a genuine witness ({:?})", enc, name, g.props[i].kind, states)));
+            }
+        }
+    }
+}
+
+/// Does the reply of the states endpoint list exactly `exp` (action index, successor or ignored)?
+fn judge_states_reply(g: &Graph, fps: &[u64], exp: &[(u16, Option<u16>)], val: &serde_json::Value, asked: &mut Vec<u16>) -> bool {
+    let arr = val.as_array().cloned().unwrap_or_default();
+    let mut ok = arr.len() == exp.len();
+    if ok {
+        for (view, (a, t)) in arr.iter().zip(exp) {
+            let action_ok = if *a == u16::MAX { view.get("action").is_none() } else { view["action"].as_str() == Some(&format!("{:?}", a)) };
+            let state_ok = match t {
+                Some(t) => view["state"].as_str() == Some(&format!("{:#?}", t)) && view["fingerprint"].as_str() == Some(&format!("{}", fp(*t))),
+                None => view.get("state").is_none() && view.get("fingerprint").is_none(),
+            };
+            let outcome_ok = if *a == u16::MAX {
+                true
+            } else {
+                let last = denotes(g, fps).unwrap_or(0);
+                let muted = g.mute_steps && (last + *a) % 2 == 0;
+                match t {
+                    Some(t) if !muted => view["outcome"].as_str() == Some(&format!("{:#?}", t)),
+                    _ => view.get("outcome").is_none(),
+                }
+            };
+            if !(action_ok && state_ok && outcome_ok) {
+                ok = false;
+            }
+            if let Some(t) = t {
+                asked.push(*t);
+            }
+        }
+    }
+    ok
+}
+
 pub struct ExOutcome {
     pub violations: Vec<Violation>,
     pub counters: Counters,
@@ -133,7 +206,173 @@ pub struct ExOutcome {
     pub visits: usize,
 }
 
+/// One HTTP/1.0 exchange with the Explorer on the loopback interface. `None`: no (complete) reply.
+fn http(port: u16, method: &str, path: &str) -> Option<(u16, Vec<u8>)> {
+    use std::io::{Read, Write};
+    let mut s = std::net::TcpStream::connect(("127.0.0.1", port)).ok()?;
+    s.set_read_timeout(Some(std::time::Duration::from_secs(20))).ok()?;
+    s.set_write_timeout(Some(std::time::Duration::from_secs(20))).ok()?;
+    let body = if method == "POST" { "Content-Length: 0\r\n" } else { "" };
+    s.write_all(format!("{} {} HTTP/1.0\r\nHost: localhost\r\n{}\r\n", method, path, body).as_bytes()).ok()?;
+    let mut buf = Vec::new();
+    s.read_to_end(&mut buf).ok()?;
+    let head_end = buf.windows(4).position(|w| w == b"\r\n\r\n")?;
+    let head = String::from_utf8_lossy(&buf[..head_end]).to_string();
+    let code: u16 = head.split_whitespace().nth(1)?.parse().ok()?;
+    let mut payload = buf[head_end + 4..].to_vec();
+    if let Some(l) = head.lines().find_map(|l| l.to_ascii_lowercase().strip_prefix("content-length:").map(|x| x.trim().parse::<usize>().ok())).flatten() {
+        if payload.len() < l {
+            return None; // truncated
+        }
+        payload.truncate(l);
+    }
+    Some((code, payload))
+}
+
+/// The Explorer behind its real HTTP server (`CheckerBuilder::serve`), on the loopback interface.
+/// Not simulated: real sockets, real threads, real time. Only the content of replies that did
+/// arrive is judged (it is a function of the model); slowness and I/O problems are probes.
+fn run_http(sc: &ExplorerScenario) -> ExOutcome {
+    let g = &sc.graph;
+    let rf = Reference::new(g);
+    let r = rf.reachable();
+    let mut v: Vec<Violation> = Vec::new();
+    let mut c = Counters::default();
+    let ws = walk_states(sc);
+    let all_fps: BTreeMap<u64, u16> = (0..g.n as u16).map(|s| (fp(s), s)).collect();
+    c.inc("http_runs");
+    let done = |v: Vec<Violation>, c: Counters| ExOutcome { violations: v, counters: c, trace_hash: 0x4854_5450, steps: 0, clock: 0, visits: 1 };
+    let port = match std::net::TcpListener::bind(("127.0.0.1", 0)).and_then(|l| l.local_addr()) {
+        Ok(a) => a.port(),
+        Err(_) => {
+            c.inc("http_skipped_no_loopback");
+            return done(v, c);
+        }
+    };
+    let model = GModel::new(g.clone());
+    let threads = sc.threads;
+    // never returns: the server thread (and the on-demand workers) stay behind until the process exits
+    std::thread::spawn(move || {
+        let _ = catch_unwind(AssertUnwindSafe(|| model.checker().threads(threads).serve(("127.0.0.1", port))));
+    });
+    let mut up = false;
+    for _ in 0..400 {
+        if http(port, "GET", "/.status").is_some() {
+            up = true;
+            break;
+        }
+        std::thread::sleep(std::time::Duration::from_millis(25));
+    }
+    if !up {
+        c.inc("http_skipped_server_not_up");
+        return done(v, c);
+    }
+    let json = |b: &[u8]| serde_json::from_slice::<serde_json::Value>(b).ok();
+    // routing: the UI files, unknown paths, wrong methods
+    for (m, path, want) in [("GET", "/", 200u16), ("GET", "/app.js", 200), ("GET", "/app.css", 200), ("GET", "/nosuch", 404), ("GET", "/.statusx", 404), ("POST", "/.status", 404), ("GET", "/.runtocompletion", 404)] {
+        match http(port, m, path) {
+            Some((code, body)) => {
+                c.inc("http_routing_replies");
+                if code != want || (want == 200 && body.is_empty()) {
+                    v.push(Violation::new("C19", "http-routing", format!("{} {} answered {} with {} bytes, expected {}", m, path, code, body.len(), want)));
+                }
+            }
+            None => c.inc("http_no_reply"),
+        }
+    }
+    // the states endpoint along the reference walk, and for sequences that denote no execution
+    let mut paths: Vec<(String, Vec<u64>, bool)> = Vec::new();
+    for len in 0..=ws.len() {
+        let fps: Vec<u64> = ws[..len].iter().map(|s| fp(*s)).collect();
+        let mut p = String::from("/.states");
+        for f in &fps {
+            p.push_str(&format!("/{}", f));
+        }
+        if len % 2 == 1 {
+            p.push('/');
+        }
+        paths.push((p.clone(), fps.clone(), false));
+        if len > 0 {
+            let mut bad = fps.clone();
+            *bad.last_mut().unwrap() ^= 0x5555;
+            let mut bp = String::from("/.states");
+            for f in &bad {
+                bp.push_str(&format!("/{}", f));
+            }
+            paths.push((bp, bad, false));
+            paths.push((format!("{}/notanumber", p.trim_end_matches('/')), fps, true));
+        }
+    }
+    for (path, fps, garbage) in paths {
+        let expect: Option<Vec<(u16, Option<u16>)>> = if garbage {
+            None
+        } else if fps.is_empty() {
+            Some(g.inits.iter().map(|s| (u16::MAX, Some(*s))).collect())
+        } else {
+            denotes(g, &fps).map(|last| g.edges_at(last).iter().enumerate().map(|(a, t)| (a as u16, *t)).collect())
+        };
+        let Some((code, body)) = http(port, "GET", &path) else {
+            c.inc("http_no_reply");
+            continue;
+        };
+        c.inc("http_states_replies");
+        match (&expect, code) {
+            (None, 404) => c.inc("states_404"),
+            (None, _) => v.push(Violation::new("C19", "states-404", format!("GET {} denotes no execution but the server answered {}", path, code))),
+            (Some(_), 404) => v.push(Violation::new("C19", "states-404", format!("GET {} denotes an execution but the server answered 404", path))),
+            (Some(exp), _) => {
+                let mut asked = Vec::new();
+                let ok = code == 200 && json(&body).map(|val| judge_states_reply(g, &fps, exp, &val, &mut asked)).unwrap_or(false);
+                if !ok {
+                    v.push(Violation::new("C19", "states-content", format!("GET {} ({}): expected actions/successors {:?}, server answered {}", path, code, exp, String::from_utf8_lossy(&body))));
+                }
+            }
+        }
+    }
+    // run to completion, then the status endpoint
+    match http(port, "POST", "/.runtocompletion") {
+        Some((200, _)) => {
+            let mut fin = None;
+            for _ in 0..400 {
+                if let Some((200, b)) = http(port, "GET", "/.status") {
+                    if let Some(st) = json(&b) {
+                        if st["done"].as_bool() == Some(true) {
+                            fin = Some(st);
+                            break;
+                        }
+                    }
+                }
+                std::thread::sleep(std::time::Duration::from_millis(25));
+            }
+            match fin {
+                None => c.inc("http_not_done_in_time"),
+                Some(st) => {
+                    c.inc("http_completions_checked");
+                    let mut cc = Counters::default();
+                    judge_status_props(g, &rf, &all_fps, &st, &mut v, &mut cc);
+                    c.merge(&cc);
+                    let n_disc = st["properties"].as_array().map(|a| a.iter().filter(|p| p[2].is_string()).count()).unwrap_or(0);
+                    if n_disc < g.props.len() && !g.props.is_empty() {
+                        let uc = st["unique_state_count"].as_u64().unwrap_or(0) as usize;
+                        if uc != r.len() {
+                            v.push(Violation::new("C19", "status", format!("after run to completion the status endpoint reports {} unique states, {} are reachable", uc, r.len())));
+                        }
+                    }
+                }
+            }
+        }
+        Some((code, _)) => v.push(Violation::new("C19", "http-routing", format!("POST /.runtocompletion answered {}", code))),
+        None => c.inc("http_no_reply"),
+    }
+    let mut seen = BTreeSet::new();
+    v.retain(|x| seen.insert(x.class.clone()));
+    done(v, c)
+}
+
 pub fn run_explorer(sc: &ExplorerScenario) -> ExOutcome {
+    if sc.http {
+        return run_http(sc);
+    }
     let g = &sc.graph;
     let rf = Reference::new(g);
     let r = rf.reachable();
@@ -203,38 +442,7 @@ pub fn run_explorer(sc: &ExplorerScenario) -> ExOutcome {
                     if sc_ < lo.0 || sc_ > hi.0 || uc < lo.1 || uc > hi.1 {
                         local_v.push(Violation::new("C19", "status", format!("status reports state_count {} / unique {} while the checker reports {:?}..{:?}", sc_, uc, lo, hi)));
                     }
-                    let props = st["properties"].as_array().cloned().unwrap_or_default();
-                    if props.len() != g.props.len() {
-                        local_v.push(Violation::new("C19", "status", format!("status lists {} properties, the model has {}", props.len(), g.props.len())));
-                    }
-                    for (i, p) in props.iter().enumerate() {
-                        let name = p[1].as_str().unwrap_or("");
-                        if name != NAMES[i] {
-                            local_v.push(Violation::new("C19", "status", format!("property {} is listed as {:?}", NAMES[i], name)));
-                        }
-                        if let Some(enc) = p[2].as_str() {
-                            // decode the fingerprint path and validate the witness
-                            let states: Option<Vec<u16>> = enc.split('/').map(|f| f.parse::<u64>().ok().and_then(|f| all_fps.get(&f).cloned())).collect();
-                            let ok = match &states {
-                                None => false,
-                                Some(states) => {
-                                    let fps: Vec<u64> = states.iter().map(|s| fp(*s)).collect();
-                                    let exec = denotes(g, &fps).is_some() && states.iter().all(|s| g.in_boundary(*s));
-                                    let last = *states.last().unwrap();
-                                    let wit = match g.props[i].kind {
-                                        Kind::Always => !g.bit(i, last),
-                                        Kind::Sometimes => g.bit(i, last),
-                                        Kind::Eventually => states.iter().all(|s| !g.bit(i, *s)) && rf.is_terminal(last),
-                                    };
-                                    exec && wit
-                                }
-                            };
-                            cc.inc("status_discovery_paths_decoded");
-                            if !ok {
-                                local_v.push(Violation::new("C19", "status", format!("status path {:?} for {} {:?} does not decode to a genuine witness ({:?})", enc, name, g.props[i].kind, states)));
-                            }
-                        }
-                    }
+                    judge_status_props(g, &rf, &all_fps, &st, &mut local_v, &mut cc);
                 }
                 Req::States(len) | Req::StatesMutated(len, _) => {
                     let len = (*len).min(ws.len());
@@ -278,33 +486,7 @@ pub fn run_explorer(sc: &ExplorerScenario) -> ExOutcome {
                         (None, Ok(val)) => local_v.push(Violation::new("C19", "states-404", format!("path {:?} denotes no execution but the handler answered {}", path, val))),
                         (Some(_), Err(e)) => local_v.push(Violation::new("C19", "states-404", format!("path {:?} denotes an execution but the handler answered 404: {}", path, e))),
                         (Some(exp), Ok(val)) => {
-                            let arr = val.as_array().cloned().unwrap_or_default();
-                            let mut ok = arr.len() == exp.len();
-                            if ok {
-                                for (view, (a, t)) in arr.iter().zip(exp) {
-                                    let action_ok = if *a == u16::MAX { view.get("action").is_none() } else { view["action"].as_str() == Some(&format!("{:?}", a)) };
-                                    let state_ok = match t {
-                                        Some(t) => view["state"].as_str() == Some(&format!("{:#?}", t)) && view["fingerprint"].as_str() == Some(&format!("{}", fp(*t))),
-                                        None => view.get("state").is_none() && view.get("fingerprint").is_none(),
-                                    };
-                                    let outcome_ok = if *a == u16::MAX {
-                                        true
-                                    } else {
-                                        let last = denotes(g, &fps).unwrap_or(0);
-                                        let muted = g.mute_steps && (last + *a) % 2 == 0;
-                                        match t {
-                                            Some(t) if !muted => view["outcome"].as_str() == Some(&format!("{:#?}", t)),
-                                            _ => view.get("outcome").is_none(),
-                                        }
-                                    };
-                                    if !(action_ok && state_ok && outcome_ok) {
-                                        ok = false;
-                                    }
-                                    if let Some(t) = t {
-                                        asked.push(*t);
-                                    }
-                                }
-                            }
+                            let ok = judge_states_reply(g, &fps, exp, val, &mut asked);
                             if !ok {
                                 local_v.push(Violation::new("C19", "states-content", format!("path {:?}: expected actions/successors {:?}, handler answered {}", path, exp, val)));
                             }
